@@ -11,6 +11,7 @@ clear <mod>                        => ok|err
 clearres <mod> <res>               => ok|err
 get <mod>                          => [rule,…] sorted
 getres <mod> <res>                 => [rule,…] in order      (flow|iso|hot|cb)
+ctrlids <mod> <res>                => identity classes of the controller objects in force, first-appearance order (flow|hot|cb)
 probe flow|iso <res> <batch> | probe cb <res> | probe sys    => pass|block|?
 ```
 -/
@@ -89,6 +90,7 @@ structure Slot (R : Type) where
   parse : String → Option R
   shw : R → String
   st : MState R := MState.init
+  c : CState R := CState.init                      -- model side: controller identities
   L : String → List (Option R) := fun _ => []     -- spec side
   Lkeys : List String := []
   seen : List R := []                             -- spec side: every rule object handed over in this case
@@ -144,7 +146,7 @@ def Slot.handle (sl : Slot R) (spec : Bool) (ts : List String) : Option (Slot R 
         ({ sl with L := latestStep M sl.L (.loadAll rules), Lkeys := ruleKeys M rules, seen := sl.seen ++ rules.filterMap id }, some c)
       else
         let (s', o) := loadAll M sl.st rules
-        ({ sl with st := s' }, some o.toString)
+        ({ sl with st := s', c := cstep M sl.st sl.c (.loadAll rules) }, some o.toString)
   | "loadres" :: _ :: res :: rest => some <|
     match parseList sl.parse rest with
     | none => (sl, some "bad-op")
@@ -155,20 +157,24 @@ def Slot.handle (sl : Slot R) (spec : Bool) (ts : List String) : Option (Slot R 
         ({ sl with L := latestStep M sl.L (.loadRes res rules), Lkeys := res :: sl.Lkeys, seen := sl.seen ++ rules.filterMap id }, some c)
       else
         let (s', o) := loadRes M sl.st res rules
-        ({ sl with st := s' }, some o.toString)
+        ({ sl with st := s', c := cstep M sl.st sl.c (.loadRes res rules) }, some o.toString)
   | ["clear", _] => some <|
     if spec then ({ sl with L := fun _ => [], Lkeys := [] }, some "ok")
-    else let (s', o) := loadAll M sl.st []; ({ sl with st := s' }, some (okOrErr o))
+    else let (s', o) := loadAll M sl.st []; ({ sl with st := s', c := cstep M sl.st sl.c .clearAll }, some (okOrErr o))
   | ["clearres", _, res] => some <|
     let res := str res
     if spec then ({ sl with L := latestStep M sl.L (.clearRes res) }, some (if res = "" then "err" else "ok"))
-    else let (s', o) := loadRes M sl.st res []; ({ sl with st := s' }, some (okOrErr o))
+    else let (s', o) := loadRes M sl.st res []; ({ sl with st := s', c := cstep M sl.st sl.c (.clearRes res) }, some (okOrErr o))
   | ["get", _] => some <|
     if spec then
       let ks := sl.Lkeys.eraseDups
       let v := showList (sortStrs ((ks.flatMap sl.specEnf).map sl.shw))
       (sl, some (wrapGet sl ks v))
     else (sl, some (showList (sortStrs ((getAll sl.st).map sl.shw))))
+  | ["ctrlids", _, res] => some <|
+    let res := str res
+    let ids := if spec then List.range (sl.specEnf res).length else canonIds ((sl.c.ctrl res).map Prod.snd)
+    (sl, some (showList (ids.map toString)))
   | ["getres", _, res] => some <|
     let res := str res
     if spec then
